@@ -666,9 +666,26 @@ func genCutoff(r *gen.Rand, units []string, aa bool, o *cleanOpts) float64 {
 			if s.t > 0 && m > 0 && m <= s.t {
 				f := float64(m) / float64(s.t)
 				if isDyadic(f) {
+					switch r.Intn(8) {
+					case 0: // glued to the tie from above / below: the unit is just under / over the cutoff
+						if f < 1 {
+							return math.Nextafter(f, 2)
+						}
+					case 1:
+						return math.Nextafter(f, -1)
+					case 2:
+						if f+1e-10 <= 1 {
+							return f + 1e-10
+						}
+					case 3:
+						return f - 1e-10
+					}
 					return f
 				}
 			}
+		}
+		if r.Chance(0.1) {
+			return r.PickF([]float64{1e-12, 1e-300, math.SmallestNonzeroFloat64}) // positive: a unit without matching character stays
 		}
 		return r.PickF(dyadicCutoffs)
 	case x < 7:
@@ -1072,7 +1089,7 @@ func main() {
 	runtime.GOMAXPROCS(2)
 	debug.SetGCPercent(400)
 	mon.SetNote("rule", "exh-sites / exh-maj: for each alphabet (nt symbols A a C - N n, aa symbols A a L - X x) and each height 1..5, ALL 6^h columns (shuffled; one alignment, or many alignments of 1..7 columns in ends mode) x all 2^5 option sets x 10 character sets x cutoffs {0,1/8,1/4,1/2,3/4,1,-1,2}; exh-seqs: ALL rows of length 1..5 likewise x 2^3 option sets x 7 characters; rand: random alignments (1..12 rows x 0..60 columns, 8 residue mixes per alphabet with both cases, IUPAC codes, * ? ., hostile names, runs of columns and rows of similar density of the target character, columns with exact k/n fractions) on which the five operations are called with random option sets and a cutoff that is dyadic, outside [0,1], decimal, or exactly the fraction of one column / row of that alignment, plus a second cleaning chained on the result; shared: alignments whose rows share storage (a sample of the rows appended to the alignment itself; rows given as overlapping windows of one buffer through AddSequenceChar); deep: alignments of 65537..68536 rows x 4 columns (a counter narrower than int would wrap); cli: the same through `goalign clean sites|seqs` (fasta in, fasta + --positions + --positions-rm + the counts on stderr out). Every call is checked against the reference rule of ref.go: kept/removed partition, result = selection of the kept columns (names, order), Length/NbSequences, leading/trailing counts, removal iff the cutoff is met, ends mode = maximal qualifying prefix and suffix. Non-trivial = at least one unit exactly at the cutoff or an active ignore option that excludes at least one character; distinct = (alignment, option sets) resp. (alphabet, height, option set) for the exhaustive cases.")
-	mon.SetNote("assumptions", "lenient (i): a column / row whose non excluded total is 0 (0/0) may be kept or removed;; lenient (ii): when an excluded character is itself matching (e.g. --reverse with --ignore-gaps) the numerator may or may not count the excluded characters, but one of the two readings must explain the whole call;; a decimal cutoff within 1e-9 of the fraction may go either way (binary representation of the cutoff), exact ties are tested with dyadic cutoffs only;; majority character = most frequent non excluded character with case folded (MaxCharStats documents upper-casing by example only; the design fixes this reading);; when every column qualifies in ends mode both the leading and the trailing count are the alignment length;; the alignment is NUCLEOTIDS or AMINOACIDS (the statement speaks of the alignment's own alphabet; BOTH/UNKNOWN are not driven);; Length() of an alignment emptied by a Seqs call is not checked (goalign reports -1 for empty);; cli: combinations the command refuses with an explicit error (--ignore-gaps with a set containing '-', --ignore-n with a set containing N/n) are accepted as refusals; --reverse / --ignore-case are not passed with GAP / MAJ (documented as not functional)")
+	mon.SetNote("assumptions", "lenient (i): a column / row whose non excluded total is 0 (0/0) may be kept or removed;; lenient (ii): when an excluded character is itself matching (e.g. --reverse with --ignore-gaps) the numerator may or may not count the excluded characters, but one of the two readings must explain the whole call;; the rule is evaluated exactly (rational arithmetic on the float64 cutoff); only when matching - cutoff x total is within 1e-14 x total of zero for a non dyadic cutoff may the unit go either way (rounding of the product in the implementation), exact ties are tested with dyadic cutoffs, near ties with cutoffs one ulp or 1e-10 off a dyadic fraction;; majority character = most frequent non excluded character with case folded (MaxCharStats documents upper-casing by example only; the design fixes this reading);; when every column qualifies in ends mode both the leading and the trailing count are the alignment length;; the alignment is NUCLEOTIDS or AMINOACIDS (the statement speaks of the alignment's own alphabet; BOTH/UNKNOWN are not driven);; Length() of an alignment emptied by a Seqs call is not checked (goalign reports -1 for empty);; cli: combinations the command refuses with an explicit error (--ignore-gaps with a set containing '-', --ignore-n with a set containing N/n) are accepted as refusals; --reverse / --ignore-case are not passed with GAP / MAJ (documented as not functional)")
 	mon.SetNote("exhaustive_subspaces", "all columns of height 1..5 over 6 symbols (9330 per alphabet) x 32 option sets x 10 character sets x 8 cutoffs for RemoveCharacterSites; x 8 option sets x 8 cutoffs for RemoveMajorityCharacterSites; all rows of length 1..5 x 8 option sets x 7 characters x 8 cutoffs for RemoveCharacterSeqs; the wrappers RemoveGapSites / RemoveGapSeqs on the matching slices; enumerated completely at both tiers; thorough tier adds all 46656 columns of height 6 per alphabet for RemoveCharacterSites")
 	for bits := 0; bits < 32; bits++ {
 		o := cleanOpts{Ends: bits&1 != 0, IgnCase: bits&2 != 0, IgnGaps: bits&4 != 0, IgnNs: bits&8 != 0, Reverse: bits&16 != 0}
